@@ -28,6 +28,9 @@ type ProcScript struct {
 	KindOf func(src string, idx int, call int) string
 	// OpenMenu gates Open with the given answers when set (e.g. {"ok","err"}).
 	OpenMenu []string
+	// TeardownErr makes every Teardown of this processor report an error after doing its work (a WASM module whose
+	// close fails, a built-in processor whose client cannot be closed cleanly).
+	TeardownErr bool
 
 	mu        sync.Mutex
 	shortSeen map[string]bool
@@ -79,6 +82,10 @@ func (p *Proc) Open(ctx context.Context) error {
 
 func (p *Proc) Teardown(context.Context) error {
 	p.W.Log("proc:"+p.Inst, "teardown", -1, p.gen)
+	if p.S.TeardownErr {
+		p.W.Log("proc:"+p.Inst, "teardownerr", -1, p.gen)
+		return cerrors.Errorf("processor %s: close failed", p.S.Name)
+	}
 	return nil
 }
 
@@ -225,7 +232,7 @@ func NewProcs(w *verifkit.World) *Procs {
 
 // Add registers a script under its name.
 func (p *Procs) Add(s ProcScript) {
-	cp := ProcScript{Name: s.Name, Gate: s.Gate, Menu: s.Menu, KindOf: s.KindOf, OpenMenu: s.OpenMenu}
+	cp := ProcScript{Name: s.Name, Gate: s.Gate, Menu: s.Menu, KindOf: s.KindOf, OpenMenu: s.OpenMenu, TeardownErr: s.TeardownErr}
 	p.Scripts[s.Name] = &cp
 }
 
